@@ -156,7 +156,10 @@ pub fn c04(ctx: &CheckCtx) -> CheckResult {
             ("lock", "poison", mode.clone()),
             ("atomic", set, Mode { complete: true, ..mode.clone() }),
             // every entry point of the integer / bool / pointer atomics raced on one variable
-            ("atomic", if ctx.tier.is_thorough() { "rmw3" } else { "rmw" }, Mode { complete: true, ..mode }),
+            ("atomic", if ctx.tier.is_thorough() { "rmw3" } else { "rmw" }, Mode { complete: true, ..mode.clone() }),
+            // the same kinds of programs with task ids above the runtime's inline capacity of 16
+            ("lock", "highids", mode.clone()),
+            ("atomic", "highids", mode),
         ],
         // atomics: the total-order claim has both directions — every execution is explained by the
         // log order (Sound) and every SC interleaving's outcome is produced (Missing)
@@ -221,6 +224,10 @@ pub fn conformance(ctx: &CheckCtx, fams: &[&str], assumptions: &[&str]) -> Check
         // channel operations mixed with park / unpark
         if *f == "mpsc" {
             items.push((*f, "mix", mode.clone()));
+        }
+        // task ids above the runtime's inline capacity of 16
+        if *f == "sem" {
+            items.push((*f, "highids", mode.clone()));
         }
     }
     // larger programs (the thorough set), all schedules with at most b preemptions: conformance only
@@ -377,6 +384,10 @@ pub fn c15(ctx: &CheckCtx) -> CheckResult {
     let mut items = items;
     // releases of unrelated tasks feeding acquisitions of several permits
     items.push(("sem", "clocks", Mode { clock_check: true, clock_all_targets: false, max_execs: 50_000, ..Mode::default() }));
+    // vector clocks longer than the inline capacity of 16 entries
+    for f in ["lock", "atomic", "sem"] {
+        items.push((f, "highids", Mode { clock_check: true, clock_all_targets: false, max_execs: 20_000, ..Mode::default() }));
+    }
     run_e2(ctx, &mut res, &items, &[VKind::Other("Clock".into()), VKind::Abort], if ctx.tier.is_thorough() { 1500.0 } else { 50.0 });
     if let Some(v) = res.coverage.remove("scheduling_decisions") {
         res.coverage.insert("must_edges_checked".into(), v);
